@@ -137,10 +137,18 @@ func genC25(seed uint64, tier string) any {
 	if !faulty && sc.Version == vTLS13 && r.Chance(2, 3) {
 		sc.Reframe = &c25Reframe{Dirs: 1 + r.Intn(3), Rate: 1 + r.Intn(3), KeyUpdates: r.Pick([]int{3, 2, 1})}
 	}
+	if !faulty && sc.Version != vTLS13 && r.Chance(1, 2) {
+		// TLS 1.0-1.2: the peer's records are re-framed (ref12.go): long CBC padding, empty fragments, splits
+		sc.Reframe = &c25Reframe{Dirs: 1 + r.Intn(3), Rate: 1 + r.Intn(3)}
+	}
 	if faulty {
 		nf := r.Pick([]int{0, 6, 2, 1})
 		kinds := []string{"flip", "flip", "flip", "drop", "dup", "swap", "replay", "trunc", "insert"}
-		regs := []string{"hdr_type", "hdr_vers", "hdr_len", "head", "body", "tail", "tail"}
+		regs := []string{"hdr_type", "hdr_vers", "hdr_len", "head", "body", "tail", "tail", "pad_far"}
+		if sc.Version != vTLS13 && r.Chance(1, 3) {
+			// the disturbed records come from a peer that pads generously and splits its records (ref12.go)
+			sc.Reframe = &c25Reframe{Dirs: 3, Rate: 1}
+		}
 		for i := 0; i < nf; i++ {
 			f := wireFault{Dir: r.Intn(2), Rec: r.Intn(6), Kind: kinds[r.Intn(len(kinds))], Off: r.Intn(1 << 16), Reg: regs[r.Intn(len(regs))], Bit: r.Intn(8), Ref: r.Intn(100), RST: r.Bool()}
 			sc.Faults = append(sc.Faults, f)
@@ -165,6 +173,7 @@ type c25Side struct {
 	net      *kit.Conn
 	filter   *recFilter
 	reframe  *reframe13
+	reframe12 *reframe12
 	wrote    []byte // accepted by Write (full writes only counted when err == nil)
 	attempted []byte
 	read     []byte
@@ -202,7 +211,19 @@ func execC25(t *testing.T, scAny any, keepLog bool) *Outcome {
 			}
 			sides[d].filter = f
 			sides[d].net.SetFilter(f)
-			if sc.Reframe != nil && sc.Reframe.Dirs&(1<<uint(d)) != 0 {
+			if sc.Reframe != nil && sc.Reframe.Dirs&(1<<uint(d)) != 0 && sc.Version != vTLS13 {
+				rf := &reframe12{Vers: sc.Version, Suite: sc.Suite, IsClient: d == 0, KeyLog: &keylog, Rng: kit.NewRng(sc.Seed ^ uint64(0x12f0+d)), Rate: sc.Reframe.Rate,
+					Hello: func() ([]byte, []byte) {
+						ch, err1 := firstClientHello(sides[0].net.SentStream())
+						sh, err2 := firstServerHello(sides[1].net.SentStream())
+						if err1 != nil || err2 != nil {
+							return nil, nil
+						}
+						return ch.Random, sh.Random
+					}}
+				sides[d].reframe12 = rf
+				sides[d].net.SetFilter(chainFilter{rf, f})
+			} else if sc.Reframe != nil && sc.Reframe.Dirs&(1<<uint(d)) != 0 {
 				rf := &reframe13{Suite: sc.Suite, Label: []string{"CLIENT_TRAFFIC_SECRET_0", "SERVER_TRAFFIC_SECRET_0"}[d], KeyLog: &keylog,
 					Rng: kit.NewRng(sc.Seed ^ uint64(0x13f0+d)), Rate: sc.Reframe.Rate, KeyUpdates: sc.Reframe.KeyUpdates}
 				sides[d].reframe = rf
@@ -309,6 +330,14 @@ func c25Check(sc *c25Scenario, sides [2]*c25Side, total [2]int, o *Outcome) *Fai
 	}
 	o.count("probe.stream."+tag, 1)
 	for d := 0; d < 2; d++ {
+		if rf := sides[d].reframe12; rf != nil {
+			for k, n := range rf.Fired {
+				o.count(k, n)
+			}
+			if rf.Lost {
+				return Failf("c25.reframe.sync", "a protected record does not open under the RFC 5246 key block derived from the key log's master secret", "%s dir %d", tag, d)
+			}
+		}
 		if rf := sides[d].reframe; rf != nil {
 			for k, n := range rf.Fired {
 				o.count(k, n)
@@ -510,8 +539,8 @@ func init() {
 		Real:   []string{"tls.Conn Handshake/Read/Write/Close on both ends, all record protection code paths (CBC, RC4, AES-GCM, ChaCha20, TLS 1.3 AEAD)", "1/n-1 record split", "dynamic record sizing"},
 		Stub:   []string{"transport (simnet)", "clock", "entropy", "PKI from fixed key pool"},
 		Assume: []string{"a read timeout or EOF after a dropped/truncated tail counts as the receiver returning an error", "for a write that straddles the disturbed record at least one of its bytes is carried by or after that record"},
-		FaultKinds: []string{"fault.flip.hdr_type", "fault.flip.hdr_vers", "fault.flip.hdr_len", "fault.flip.head", "fault.flip.body", "fault.flip.tail", "fault.drop", "fault.dup", "fault.swap", "fault.replay", "fault.trunc", "fault.trunc.hdr", "fault.insert",
-			"reframe.empty_record", "reframe.empty_record_padded", "reframe.padding", "reframe.split", "reframe.key_update_injected", "reframe.key_update_requested",
+		FaultKinds: []string{"fault.flip.hdr_type", "fault.flip.hdr_vers", "fault.flip.hdr_len", "fault.flip.head", "fault.flip.body", "fault.flip.tail", "fault.flip.pad_far", "fault.drop", "fault.dup", "fault.swap", "fault.replay", "fault.trunc", "fault.trunc.hdr", "fault.insert",
+			"reframe12.long_cbc_padding", "reframe12.empty_record", "reframe12.split", "reframe.empty_record", "reframe.empty_record_padded", "reframe.padding", "reframe.split", "reframe.key_update_injected", "reframe.key_update_requested",
 			"net.segments", "net.short_read", "net.write_blocked_on_window", "net.read_deadline_expired", "probe.faultfree_complete", "probe.receiver_error_after_fault", "probe.tls10_cbc_split_path"},
 		NotInjected: "no storage or crash-restart exists in a TLS connection; faults before the end of the handshake belong to C32",
 		Gen:         genC25, New: func() any { return &c25Scenario{} }, Exec: execC25, Shrink: shrinkC25,
